@@ -31,3 +31,54 @@ package stream
 //verif:ensures[state] winSt(w) == win_step(old(winSt(w)), true)
 //verif:ensures[decision] ok == (w.nackCount <= w.nackThreshold)
 //verif:modifies w.cursor, w.nackCount, w.ackCount, w.window[*]
+
+// ---- forceStopper (C12): two-method monitor under f.mu --------------------
+
+//verif:func (*forceStopper).stop(f)
+//verif:ensures[cancel] old(f.cancel) != nil ==> cancelled(old(f.cancel)) && f.stopped == old(f.stopped)
+//verif:ensures[latch] old(f.cancel) == nil ==> f.stopped
+//verif:ensures[keep] f.cancel == old(f.cancel) && (old(f.stopped) ==> f.stopped)
+//verif:modifies f.stopped, cancelled(f.cancel)
+
+//verif:func (*forceStopper).start(f) (ctx, cancel)
+//verif:ensures[publish] f.cancel == cancel && cancel != nil && ctx != nil && ctx_of(cancel) == ctx
+//verif:ensures[latch] old(f.stopped) ==> cancelled(cancel)
+//verif:ensures[keep] f.stopped == old(f.stopped)
+//verif:modifies f.cancel, cancelled(cancel)
+
+// ---- DestinationNode (C06, C12): order of operations in Run ---------------
+
+//verif:func (*DestinationNode).Run(n, ctx) (err)
+//verif:call[open-ctx] Destination.Open requires called("(*forceStopper).start") && arg0 == result_of("(*forceStopper).start", 0)
+//verif:call[write-after-open] Destination.Write requires succeeded("Destination.Open")
+
+//verif:closure of (*DestinationNode).Run calling Destination.Teardown (err, n, connectorCtx, lastPosition, ctx, openMsgTracker)
+//verif:call[stop-before-wait] (*OpenMessagesTracker).Wait requires called("Destination.Stop")
+//verif:call[wait-before-teardown] Destination.Teardown requires called("(*OpenMessagesTracker).Wait") && called("Destination.Stop")
+
+//verif:func (*DestinationNode).ForceStop(n, ctx)
+//verif:ensures[stops] called("(*forceStopper).stop")
+
+// ---- SourceNode (C06, C12) -------------------------------------------------
+
+//verif:func (*SourceNode).Run(n, ctx) (err)
+//verif:call[open-ctx] Source.Open requires called("(*forceStopper).start") && arg0 == result_of("(*forceStopper).start", 0)
+
+//verif:closure of (*SourceNode).Run calling Source.Teardown (n, ctx, openMsgTracker, connectorCtx, err)
+//verif:call[wait-before-teardown] Source.Teardown requires called("(*OpenMessagesTracker).Wait")
+
+//verif:func (*SourceNode).ForceStop(n, ctx)
+//verif:ensures[stops] called("(*forceStopper).stop")
+
+// ---- DestinationAckerNode (C06, C12) ---------------------------------------
+
+//verif:func (*DestinationAckerNode).ForceStop(n, ctx)
+//verif:ensures[stops] called("(*forceStopper).stop")
+
+// ---- DLQHandlerNode (C06, C12) ---------------------------------------------
+
+//verif:func (*DLQHandlerNode).Run(n, ctx) (err)
+//verif:call[open-ctx] DLQHandler.Open requires called("(*forceStopper).start") && arg0 == result_of("(*forceStopper).start", 0)
+
+//verif:func (*DLQHandlerNode).ForceStop(n, ctx)
+//verif:ensures[stops] called("(*forceStopper).stop")
